@@ -29,6 +29,9 @@ def ident(f):
     return (f.crate, a, t, f.name)
 
 
+_CALLS = None
+
+
 def _load():
     global _KNOWN, _SIGS
     if _KNOWN is None:
@@ -37,6 +40,8 @@ def _load():
         rows = [r if isinstance(r, dict) else {'id': r, 'private': False, 'inputs': [], 'output': ''} for r in rows]
         _KNOWN = {tuple(r['id']) for r in rows}
         _SIGS = {tuple(r['id']): (r['private'], r['inputs'], r['output']) for r in rows}
+        global _CALLS
+        _CALLS = {tuple(r['id']): set(r.get('calls', [])) for r in rows}
 
 
 def known():
@@ -47,6 +52,11 @@ def known():
 def known_sigs():
     _load()
     return _SIGS
+
+
+def known_calls():
+    _load()
+    return _CALLS
 
 
 def known_adts():
